@@ -134,7 +134,7 @@ def judge(exp, resp, faults):
             if not any(in_span(l, sp) for sp in spans):
                 return "location-outside-field"
         kind = faults.get(p)
-        if kind == "raise_te":
+        if kind == "raise_te" and any(c[0] == p for c in exp.calls):  # only if the resolver was reached (arguments coerced)
             if e["message"] != "user message %s" % (list(p),) or e.get("extensions") != {"code": "E42", "where": list(p)}:
                 return "user-message-or-extensions-lost"
     for n in exp.nulled:
@@ -263,9 +263,17 @@ def chain_root(schema):
 CHAIN_DOC = "{ k a { k b { k c } } }"
 
 
+ARG_DOCS = [
+    # argument coercion failures reachable in valid documents: the error must be located at the field / its argument
+    "query A($v: Int = 1) { need(x: $v) num }",
+    "query A($v: Int = 1, $w: Int) { a { id } need(x: $v, y: $w) lst(xs: [1, $v]) }",
+    "query A($p: Int = 2) { hello(p: {a: $p, c: [$p]}) two(a: $p) }",
+]
+
+
 def shards(tier, seed):
     items = []
-    nseeds = len(seeds.K_DOCS) + len(seeds.K_MUTATIONS)
+    nseeds = len(seeds.K_DOCS) + len(seeds.K_MUTATIONS) + len(ARG_DOCS)
     for si in range(nseeds):
         items.append(("seed", si, tier))
     for w1 in range(6):
@@ -281,7 +289,7 @@ def run_shard(item):
             _, si, tier = item
             schema = seeds.K
             engine = explore.engine_for("K", schema)
-            seed_text = (seeds.K_DOCS + seeds.K_MUTATIONS)[si]
+            seed_text = (seeds.K_DOCS + seeds.K_MUTATIONS + ARG_DOCS)[si]
             depth = 1
             for d, level, trail, stats in explore.bfs(schema, doc.parse(seed_text), depth):
                 text, located = doc.roundtrip(d)
@@ -289,7 +297,7 @@ def run_shard(item):
                 names = [o.name for o in ops] if len(ops) > 1 else [ops[0].name]
                 for opn in names:
                     op = X.get_operation(located, opn)
-                    assignments = list(explore.variable_assignments(schema, op))[:2]
+                    assignments = list(explore.variable_assignments(schema, op, with_null=True))[:3]
                     for variables in assignments:
                         root = build_root(schema, schema.root(op.kind), 1)
                         enumerate_faults(schema, engine, located, text, opn, variables or None, root, out,
